@@ -360,8 +360,8 @@ class World:
         self.var_classes = [self.ns[v["name"]] for v in spec["variables"]]
         self.tbs = self.make_system()
 
-    def make_system(self) -> TaxBenefitSystem:
-        tbs = TaxBenefitSystem(self.entities)
+    def make_system(self, cls=TaxBenefitSystem) -> TaxBenefitSystem:
+        tbs = cls(self.entities)
         tbs.add_variables(*self.var_classes)
         if self.spec.get("parameters"):
             tbs.parameters = ParameterNode("", data=parameters_data(self.spec["parameters"]))
